@@ -190,6 +190,40 @@ def run_tlc(pid, name, module, cfg_text, workers=4, env=None, timeout=900, simul
     return res
 
 
+def apalache_inductive(rep, pid, module, safety="Safety", timeout=600):
+    """Unbounded argument: discharge with Apalache (a) Init => IndInv, (b) IndInv /\\ Next => IndInv',
+    (c) IndInv => Safety for the integer projection spec/unbounded/<module>.tla (arbitrary chunk size,
+    arbitrary number of chunks).  A timeout is 'inconclusive' (recorded, never a violation); a
+    counterexample means the projection or its invariant is wrong (a model bug: ToolError)."""
+    wd = workdir(pid, "apalache-" + module, clean=True)
+    src = os.path.join(SPEC, "unbounded", module + ".tla")
+    steps = [("init", ["--init=Init", "--inv=IndInv", "--length=0"]),
+             ("consecution", ["--init=IndInit", "--inv=IndInv", "--length=1"]),
+             ("implies_safety", ["--init=IndInit", "--inv=" + safety, "--length=0"])]
+    done = 0
+    t0 = time.time()
+    for name, args in steps:
+        cmd = ["apalache-mc", "check", "--cinit=ConstInit", "--out-dir=" + os.path.join(wd, "out"), "--run-dir=" + os.path.join(wd, "run-" + name)] + args + [src]
+        try:
+            p = subprocess.run(cmd, cwd=wd, stdout=subprocess.PIPE, stderr=subprocess.STDOUT, text=True, timeout=timeout)
+        except subprocess.TimeoutExpired:
+            rep.notes.append("Apalache %s/%s: inconclusive (timeout %ss)" % (module, name, timeout))
+            continue
+        if "EXITCODE: OK" in p.stdout:
+            done += 1
+        elif "violated" in p.stdout or "EXITCODE: ERROR (12)" in p.stdout:
+            raise ToolError("Apalache found a counterexample to %s/%s (projection or invariant wrong)\n%s" % (module, name, p.stdout[-1500:]))
+        else:
+            rep.notes.append("Apalache %s/%s: inconclusive (%s)" % (module, name, p.stdout.strip().splitlines()[-1] if p.stdout.strip() else "no output"))
+    shutil.rmtree(wd, ignore_errors=True)
+    rep.models.append({"name": "apalache-" + module, "obligations": len(steps), "discharged": done, "wall_s": round(time.time() - t0, 2),
+                       "what": "inductive invariant of the integer projection (any chunk size, any number of chunks): Init => IndInv, "
+                               "IndInv /\\ Next => IndInv', IndInv => " + safety})
+    if done == len(steps):
+        rep.notes.append("unbounded: %s.%s proved inductively by Apalache (3/3 obligations)" % (module, safety))
+    return done
+
+
 def cfg(spec=None, init=None, next_=None, constants=None, invariants=(), properties=(),
         constraint=None, view=None, deadlock=False, postcondition=None, action_constraint=None):
     lines = []
